@@ -138,4 +138,57 @@ def gstep (d : Dir) : GOp → Dir
   | .save x _ mid => (wrap mid x.tag).foldl Step.apply d
   | .crash x _ mid k torn => crashSteps (wrap mid x.tag) d k torn
 
+/-! ### interruption by an exception: effects performed while the stack unwinds
+
+A process death (`crashSteps`) performs no further effect.  An interruption that UNWINDS the Python stack
+(`KeyboardInterrupt`, `SystemExit` raised by a signal handler, `OSError` disk full, an unserialisable value …) lets every
+`finally` / `except` / context-manager exit on the way out run: an interrupted save is then a prefix of the plan
+(optionally with the file of the next effect half-written) followed by an arbitrary list `unw` of clean-up effects.  Like
+the plan itself `unw` is traced from the real run; `unw = []` is the process death. -/
+
+def interruptSteps (steps : List Step) (d : Dir) (k : Nat) (torn : Bool) (unw : List Step) : Dir :=
+  unw.foldl Step.apply (crashSteps steps d k torn)
+
+/-- `safeUnwind s unw` (`s`: the sentinel may exist when the unwinding starts): no clean-up effect creates the
+sentinel, and as long as the sentinel may exist no data file is touched (a clean-up may remove the sentinel first) -/
+def safeUnwind : Bool → List Step → Bool
+  | _, [] => true
+  | _, .write .sentinel _ :: _ => false
+  | _, .remove .sentinel :: r => safeUnwind false r
+  | s, _ :: r => !s && safeUnwind false r
+
+/-- hypothesis of the `*_unwind` theorems on the traced clean-up effects of a save of `nSteps` effects interrupted
+after `k` of them; it does not mention the directory: strictly inside the save (0 < k < nSteps) the sentinel is known
+to be gone, before the first / after the last effect it may exist -/
+def GoodUnwind (nSteps k : Nat) (unw : List Step) : Bool :=
+  safeUnwind (decide (k = 0 ∨ nSteps ≤ k)) unw
+
+inductive UOp
+  | read (src : Obj) (mid : List Step)
+  | save (x : Obj) (meshOnly : Bool) (mid : List Step)
+  /-- `save` interrupted after `k` effects (by a process death: `unw = []`, or by an exception) -/
+  | interrupt (x : Obj) (meshOnly : Bool) (mid : List Step) (k : Nat) (torn : Bool) (unw : List Step)
+  /-- `read_directory(save=True)` whose automatic save (if there is one: no sentinel) is interrupted -/
+  | readInterrupt (src : Obj) (mid : List Step) (k : Nat) (torn : Bool) (unw : List Step)
+deriving Repr, DecidableEq
+
+def UOp.good : UOp → Bool
+  | .read src mid => GoodMid mid src false
+  | .save x mo mid => GoodMid mid x mo
+  | .interrupt x mo mid k _ unw => GoodMid mid x mo && GoodUnwind (mid.length + 2) k unw
+  | .readInterrupt src mid k _ unw => GoodMid mid src false && GoodUnwind (mid.length + 2) k unw
+
+def ustep (d : Dir) : UOp → Dir
+  | .read src mid => (readDirG d src mid).2
+  | .save x _ mid => (wrap mid x.tag).foldl Step.apply d
+  | .interrupt x _ mid k torn unw => interruptSteps (wrap mid x.tag) d k torn unw
+  | .readInterrupt src mid k torn unw =>
+    if (d .sentinel).isSome then d else interruptSteps (wrap mid src.tag) d k torn unw
+
+/-- the machine without unwinding effects is the special case `unw = []` -/
+def GOp.toU : GOp → UOp
+  | .read src mid => .read src mid
+  | .save x mo mid => .save x mo mid
+  | .crash x mo mid k torn => .interrupt x mo mid k torn []
+
 end Femio.C05
